@@ -2,9 +2,9 @@
   GV.Props.C07 — "Arrays and structs are values; pointers, slices and maps alias".
 
   Slices (model GV.Model.Slice = transcription of prelude.js; spec GV.Spec.Slice = the Go specification):
-    subslice_spec, subslice_wf, copy_spec, append_spec, append_fresh_elems_{full (not claimed), counterexample, partial}
+    subslice_spec, subslice_wf, copy_spec, append_spec, appendSlice_spec, append_fresh_elems
   Values (model GV.Model.Heap = JS objects + `$clone` where `cloneAt`; spec GV.Spec.GoValue = flat Go memory):
-    clone_deep, no_sharing, value_semantics_{full (not claimed), counterexample…, partial, cloneAt}, cloneAt_newLocation
+    clone_deep, copy_in_place, no_sharing, value_semantics (full strength), cloneAt_newLocation; section "Repaired defects"
 -/
 import GV.Proofs.SliceAppendSlice
 import GV.Proofs.HeapSim
@@ -96,38 +96,12 @@ theorem appendSlice_spec {α} (k : Kind) (zero : α) (A : Arrays α) (s t : Hdr)
         ∀ id, id < A.length → getArr (appendSlice k zero A s t).arrays id = getArr A id) :=
   appendSlice_spec' k zero A s t hwf htw harr htarr
 
-/-- FULL-STRENGTH statement, NOT claimed: after `append` the new backing array never shares element OBJECTS with
-    the old one (Go: a reallocated array is a copy, so `t := append(s, x); t[0].f = 1` is invisible through `s`). -/
-def append_fresh_elems_full : Prop :=
-  ∀ (k : Kind) (A : Arrays Int) (s : Hdr) (vals : List Int), s.wf A →
-    (append k 0 A s vals).reusedElemObjects = false
-
-/-- witness: `s := make([]S, 1, 1); t := append(s, S{})` — `$growSlice` copies the element references
-    (`array.slice`, prelude.js:494), so `t[0]` and `s[0]` are the same JS object. -/
-theorem append_fresh_elems_counterexample : ¬ append_fresh_elems_full := by
-  intro h
-  have := h .spine [[7]] { arr := 0, off := 0, len := 1, cap := 1, isNil := false } [8]
-    (by constructor <;> simp [getArr])
-  revert this
-  decide
-
-/-- what does hold: element objects are shared only when a NON-EMPTY slice of STRUCT/ARRAY elements is
-    reallocated; never for numeric, string, pointer, slice, map, interface elements, never within capacity. -/
-theorem append_fresh_elems_partial {α} (k : Kind) (zero : α) (A : Arrays α) (s : Hdr) (vals : List α) (hwf : s.wf A)
-    (hex : k ≠ .spine ∨ s.len = 0 ∨ s.len + vals.length ≤ s.cap) :
-    (append k zero A s vals).reusedElemObjects = false := by
-  cases hr : (append k zero A s vals).reusedElemObjects
-  · rfl
-  · obtain ⟨hk, h1, h2⟩ := (append_reused k zero A s vals hwf).1 hr
-    rcases hex with h | h | h
-    · exact absurd hk h
-    · omega
-    · omega
-
-example : ∃ (k : Kind) (A : Arrays Int) (s : Hdr) (vals : List Int), s.wf A ∧
-    (k ≠ .spine ∨ s.len = 0 ∨ s.len + vals.length ≤ s.cap) ∧ (append k 0 A s vals).hdr.arr ≠ s.arr :=
-  ⟨.typed, [[1, 2]], { arr := 0, off := 0, len := 2, cap := 2, isNil := false }, [3],
-    by constructor <;> simp [getArr], by decide, by decide⟩
+/-- FULL STRENGTH: after `append` the new backing array never shares element OBJECTS with the old one (Go: a
+    reallocated array is a copy, so `t := append(s, x); t[0].f = 1` is invisible through `s`) — every element
+    representation, every well-formed header, every list of values. -/
+theorem append_fresh_elems {α} (k : Kind) (zero : α) (A : Arrays α) (s : Hdr) (vals : List α) (hwf : s.wf A) :
+    (append k zero A s vals).reusedElemObjects = false :=
+  append_reused k zero A s vals hwf
 
 /-! ## Values -/
 open GV.Heap GV.Spec.GoValue
@@ -165,34 +139,51 @@ theorem value_semantics_partial (tbl : Ctx → Bool) (prog : List Stmt) (h : ∀
     runJS tbl prog = runGo prog :=
   GV.Heap.value_semantics_partial tbl prog h
 
-/-- the real translator's table copies at every new-location context except the four recorded ones -/
-theorem cloneAt_newLocation (c : Ctx) (h : c.kind = .newLocation) (h1 : c ∉ nonCloning) : cloneAt c = true :=
-  GV.Heap.cloneAt_newLocation c h h1
+/-- the translator's table copies at EVERY new-location context -/
+theorem cloneAt_newLocation (c : Ctx) (h : c.kind = .newLocation) : cloneAt c = true :=
+  GV.Heap.cloneAt_newLocation c h
 
-/-- for the REAL table: value semantics for all well-formed programs that avoid the four non-cloning contexts
-    (box into interface, range operand, invocation of a method value, value method through an interface) -/
-theorem value_semantics_cloneAt (prog : List Stmt) (h : ∀ s ∈ prog, wfStmtStrict s) :
-    runJS cloneAt prog = runGo prog :=
-  GV.Heap.value_semantics_cloneAt prog h
+/-- **value_semantics**, FULL STRENGTH for the translator's clone table: the JS run (references + `$clone` where the
+    translator emits one) and the Go run (flat copied memory) of EVERY well-formed program of the copy-context language
+    print the same observations. Well-formed = `bind` uses a new-location context, `store` an in-place context whose
+    source variable is not the variable being overwritten; no context is excluded any more. -/
+theorem value_semantics (prog : List Stmt) (h : ∀ s ∈ prog, wfStmt s) : runJS cloneAt prog = runGo prog :=
+  GV.Heap.value_semantics prog h
 
-theorem no_sharing_cloneAt (prog : List Stmt) (h : ∀ s ∈ prog, wfStmtStrict s) :
+/-- and the ownership invariant holds in every heap reachable by the translator's table -/
+theorem no_sharing_cloneAt (prog : List Stmt) (h : ∀ s ∈ prog, wfStmt s) :
     Owned (prog.foldl (stepJS cloneAt) JState.init) :=
   GV.Heap.no_sharing_cloneAt prog h
 
-/-- FULL-STRENGTH statement (`GV.Heap.value_semantics_full`: every well-formed program, real table) is NOT claimed:
-    it is refuted by each of the four non-cloning contexts. -/
-theorem value_semantics_counterexample : ¬ value_semantics_full := GV.Heap.value_semantics_counterexample
-theorem value_semantics_counterexample_range : ¬ value_semantics_full := GV.Heap.value_semantics_counterexample_range
-theorem value_semantics_counterexample_boundCall : ¬ value_semantics_full := GV.Heap.value_semantics_counterexample_boundCall
-theorem value_semantics_counterexample_ifaceCall : ¬ value_semantics_full := GV.Heap.value_semantics_counterexample_ifaceCall
-
-/-- the premise of `value_semantics_cloneAt` is satisfiable by a non-trivial program -/
+/-- the premise of `value_semantics` is satisfiable by a non-trivial program (it uses all formerly excluded contexts) -/
 example : ∀ s ∈ ([.decl (.struct [.int, .array 2 (.struct [.int, .ptr .int])]), .setLeaf 0 [1, 1, 0] 5,
      .bind .define (.loc 0 [1]), .bind .arg (.via .result (.loc 1 [0])),
-     .store .assign 0 [1, 0] (.loc 2 []), .bind .send (.loc 0 []), .dump 0, .dump 3] : List Stmt), wfStmtStrict s := by
+     .store .assign 0 [1, 0] (.loc 2 []), .bind .box (.loc 0 []), .bind .rangeOperand (.loc 0 [1]),
+     .bind .methodValue (.loc 0 []), .bind .boundCall (.loc 5 []), .bind .ifaceCall (.loc 3 []),
+     .dump 0, .dump 3] : List Stmt), wfStmt s := by
   intro s hs
   simp only [List.mem_cons, List.not_mem_nil, or_false] at hs
-  rcases hs with rfl | rfl | rfl | rfl | rfl | rfl | rfl | rfl <;>
-    simp [wfStmtStrict, Ctx.kind, nonCloning, Expr.var]
+  rcases hs with rfl | rfl | rfl | rfl | rfl | rfl | rfl | rfl | rfl | rfl | rfl | rfl <;>
+    simp [wfStmt, Ctx.kind, Expr.var]
+
+/-! ## Repaired defects (theorems about the code BEFORE the fix: commits C07-*) -/
+
+/-- before the repair `$growSlice` shared the element objects of a non-empty reallocated slice of array/struct
+    elements: witness `s := make([]S, 1, 1); t := append(s, S{})` -/
+theorem before_repair_growslice :
+    reusedBeforeRepair .spine { arr := 0, off := 0, len := 1, cap := 1, isNil := false } 2 = true := by decide
+
+/-- before the repairs the table did not copy at box / range operand / method-value call / interface dispatch, and
+    value semantics failed for each of them (concrete programs in GV.Proofs.HeapSim) -/
+theorem before_repair_box : ¬ value_semantics_before_repair := GV.Heap.before_repair_box
+theorem before_repair_range : ¬ value_semantics_before_repair := GV.Heap.before_repair_range
+theorem before_repair_boundCall : ¬ value_semantics_before_repair := GV.Heap.before_repair_boundCall
+theorem before_repair_ifaceCall : ¬ value_semantics_before_repair := GV.Heap.before_repair_ifaceCall
+
+/-- the same four witness programs agree with Go under the repaired table -/
+theorem after_repair_witnesses :
+    runJS cloneAt cexBox = runGo cexBox ∧ runJS cloneAt cexRange = runGo cexRange ∧
+    runJS cloneAt cexBound = runGo cexBound ∧ runJS cloneAt cexIface = runGo cexIface :=
+  GV.Heap.after_repair_witnesses
 
 end GV.Props.C07
